@@ -164,6 +164,11 @@ pub fn base_raw(quick: bool) -> Vec<Gen> {
     // three-block mixes
     v.push(gen("dynauto+stored+fixed".into(), &[Plan::DynamicAuto(lits(b"hello hello hello")), Plan::Stored { data: b"-".to_vec(), bad_nlen: false }, Plan::Fixed(vec![Tok::Match(17, 18), Tok::Lit(b'!')])]));
     v.push(gen("stored(0)+stored(0)+fixed(empty)".into(), &[Plan::Stored { data: vec![], bad_nlen: false }, Plan::Stored { data: vec![], bad_nlen: false }, Plan::Fixed(vec![])]));
+    // blocks that need no output space AFTER the last data byte: empty stored blocks (flush markers) and empty final blocks
+    v.push(gen("stored(hello)+stored(0)+stored(0)".into(), &[Plan::Stored { data: b"hello".to_vec(), bad_nlen: false }, Plan::Stored { data: vec![], bad_nlen: false }, Plan::Stored { data: vec![], bad_nlen: false }]));
+    v.push(gen("fixed(hello)+stored(0)+fixed(empty)".into(), &[Plan::Fixed(lits(b"hello")), Plan::Stored { data: vec![], bad_nlen: false }, Plan::Fixed(vec![])]));
+    v.push(gen("dynauto(hello hello)+stored(0)".into(), &[Plan::DynamicAuto(lits(b"hello hello")), Plan::Stored { data: vec![], bad_nlen: false }]));
+    v.push(gen("fixed(a,match)+stored(0)+stored(0)+dynauto(empty)".into(), &[Plan::Fixed(vec![Tok::Lit(b'a'), Tok::Match(258, 1)]), Plan::Stored { data: vec![], bad_nlen: false }, Plan::Stored { data: vec![], bad_nlen: false }, Plan::DynamicAuto(vec![])]));
     // raw symbols that are invalid: 286, 287 in the fixed code; distance symbols 30/31 via a dynamic plan are not expressible, bit flips cover them
     v.push(gen("fixed(sym286)".into(), &[Plan::Fixed(vec![Tok::Lit(b'a'), Tok::RawSym(286)])]));
     v.push(gen("fixed(sym287)".into(), &[Plan::Fixed(vec![Tok::Lit(b'a'), Tok::RawSym(287)])]));
